@@ -435,25 +435,52 @@ def crs_centre(ctx: Context, rule: str) -> None:
 
 def move_dimensions_exits(ctx: Context, rule: str) -> None:
     """move_dimensions_to_end: the only exit that does not transpose is the one where the dims already are in the wanted order."""
+    from .common import expand_locals, facts
     fi = ctx.func('emsarray.utils.move_dimensions_to_end')
     flow = ctx.flow(fi)
-    m = Matcher(ctx, fi)
     da, dims = fi.params[0], fi.params[1]
-    order = m.stmt(f"$order = [$d for $d in {da}.dims if $d not in {dims}] + {dims}") or m.stmt(f"$order = [$d for $d in {da}.dims if $d not in {dims}] + list({dims})")
-    ok = order is not None
+
+    def is_order(e) -> bool:
+        # [d for d in <array>.dims if d not in <dimensions>] + <dimensions>   (the requested ones possibly through list())
+        try:
+            m = Matcher(ctx, fi)
+            x = expand_locals(flow, e)
+            return bool(m.match(f"[$d for $d in {da}.dims if $d not in {dims}] + {dims}", x, commit=False)
+                        or m.match(f"[$d for $d in {da}.dims if $d not in {dims}] + list({dims})", x, commit=False))
+        except Exception:
+            return False
+
+    ok = True
     detail = []
+    site = None
     for r in fi.returns():
         v = flow.resolve(r.value)
-        g = guards(fi, r)
+        fs = facts(ctx, fi, r)
         if isinstance(v, ast.Call) and isinstance(v.func, ast.Attribute) and v.func.attr == 'transpose':
-            ok = ok and m.match(f"{da}.transpose(*$order)", v, commit=False)
-            detail.append(f"transpose under {g}")
+            good = len(v.args) == 1 and isinstance(v.args[0], ast.Starred) and not v.keywords and norm_text(v.func.value) == da and is_order(v.args[0].value)
+            ok = ok and good
+            site = site or v
+            detail.append(f"transpose({norm_text(v.args[0])[:30] if v.args else ''}) under {sorted(fs)}"[:160])
         else:
-            same_order = order is not None and any(t in (f"{m.name('order')} == list({da}.dims)", f"list({da}.dims) == {m.name('order')}") and pol for t, pol in g)
-            ok = ok and same_order
-            detail.append(f"{norm_text(v)[:40]} under {g}")
+            same = False
+            for t, pol in fs:
+                if not pol or ' == ' not in t:
+                    continue
+                try:
+                    c = ast.parse(t, mode='eval').body
+                except SyntaxError:
+                    continue
+                if isinstance(c, ast.Compare) and len(c.ops) == 1 and isinstance(c.ops[0], ast.Eq):
+                    sides = [c.left, c.comparators[0]]
+                    for a, b in (sides, sides[::-1]):
+                        if norm_text(a) in (f"list({da}.dims)",) and Matcher(ctx, fi).match(f"[$d for $d in {da}.dims if $d not in {dims}] + {dims}", b, commit=False):
+                            same = True
+                        if norm_text(a) in (f"list({da}.dims)",) and Matcher(ctx, fi).match(f"[$d for $d in {da}.dims if $d not in {dims}] + list({dims})", b, commit=False):
+                            same = True
+            ok = ok and same
+            detail.append(f"{norm_text(v)[:40]} under {sorted(fs)}"[:200])
     ctx.check(rule, bool(ok) and len(fi.returns()) >= 1, "every exit returns the array with the requested dimensions last and in the requested order (untransposed only when it already is so)", fi,
-              order or fi.node, construct=f"move_dimensions_to_end exits: {detail}")
+              site or fi.node, construct=f"move_dimensions_to_end exits: {detail}")
 
 
 def silent_still_reports_errors(ctx: Context, rule: str) -> None:
